@@ -2,9 +2,9 @@ SPECIFICATION Spec
 CONSTANTS
   Sids = {1,2}
   Threads = {1,2}
-  Deadlines = {1,2}
-  MaxNow = 2
-  MaxSaves = 2
+  Deadlines = {1,2,3}
+  MaxNow = 3
+  MaxSaves = 3
   Backend = "memory"
   Net = FALSE
   IntMax = 1000
